@@ -73,6 +73,7 @@ func cmdVerify(args []string) {
 	verbose := fs.Bool("v", false, "print every obligation")
 	onlySpec := fs.Bool("spec", true, "only functions that have a contract")
 	ovf := fs.Bool("ovf", false, "generate integer-overflow obligations")
+	noRetry := fs.Bool("noretry", true, "do not retry undischarged obligations with a larger budget")
 	fs.Parse(args)
 	checkOverflow = *ovf
 	e, err := LoadEngine(repoDir())
@@ -110,7 +111,7 @@ func cmdVerify(args []string) {
 		}
 	}
 	gen := time.Since(t0)
-	SolveAll(all, SolveOpts{TimeoutMs: *timeout, Dir: tmp}, runtime.NumCPU())
+	SolveAll(all, SolveOpts{TimeoutMs: *timeout, Dir: tmp, NoRetry: *noRetry}, runtime.NumCPU())
 	bad := 0
 	for _, o := range all {
 		ok := o.Result == "unsat"
